@@ -113,6 +113,7 @@ def build_executor(plan):
     S.consts["errno"] = errno_mod if "errno_mod" in dir() else __import__("errno")
     import rpyc.core.protocol as protocol_mod, rpyc.core.consts as consts_mod
     S.consts["HANDLERS"] = protocol_mod.Connection._request_handlers()
+    S.consts["TRUE"], S.consts["FALSE"] = True, False
     for _k, _v in vars(consts_mod).items():
         if _k.isupper():
             S.consts[_k] = _v
